@@ -72,4 +72,22 @@ CHECKS = {
         rule="case = (word of alphabet items, header version, reader mode); states = distinct word prefixes (trie nodes) plus distinct dumped loader states (db, remainMember, lastReadCount, totMemberCount); transitions = parser runs; non-trivial = word contains at least one key or Lua record",
         parts=[dict(pkg="./pkg/rdb", harness=["rdb"], test="^TestVerif_C01$", shards=16, budget=dict(quick=90, thorough=1500), mem_kb=8*1024*1024)],
     ),
+    "C11": dict(
+        level="fault_enumeration",
+        engine="seqx",
+        technique="exhaustive enumeration of inputs/chunkings for the digests and of every single-byte substitution and truncation of every generated RDB file and DUMP payload, executed on the real checkers",
+        text="(a) both CRC-64 implementations are compared with a bitwise reference on every 1- and 2-byte input (which pins every table entry and the update "
+             "rule), all strings <=6 over {00,01,80,ff}, and every chunking into <=3 writes; Sum/Sum64/Reset. (b) for every single-record RDB of the "
+             "catalogue, every byte position x all 255 other values must make header, parsing or the end-of-file check fail; the intact file must pass. "
+             "(c) every DUMP payload: intact accepted by DecodeDump and CheckVersionChecksum, every substitution, every truncation below 10 bytes and "
+             "correctly re-sealed payloads with versions above the supported one rejected.",
+        note="trusts crcref (bitwise CRC-64/Jones, checked against e9c6d914c4b8d9ca) and rdbgen; artefacts longer than 700 bytes are substituted in their first and last 320 bytes only (stated in bounds)",
+        rule="case = (artefact, position, substituted byte) or (input, chunking); non-trivial = distinct artefacts / inputs for which the real checker's verdict is compared with the expected one",
+        parts=[
+            dict(pkg="./pkg/rdb/digest", harness=["digest"], test="^TestVerif_C11A$", shards=1, budget=dict(quick=60, thorough=120)),
+            dict(pkg="./pkg/libs/cupcake/rdb/crc64", harness=["crc64"], test="^TestVerif_C11A$", shards=1, budget=dict(quick=60, thorough=120)),
+            dict(pkg="./pkg/rdb", harness=["rdb"], test="^TestVerif_C11B$", shards=32, budget=dict(quick=60, thorough=900), mem_kb=0),
+            dict(pkg="./redis-shake/common", harness=["common"], test="^TestVerif_C11U$", shards=16, budget=dict(quick=90, thorough=600)),
+        ],
+    ),
 }
